@@ -546,16 +546,19 @@ static int setService(TcpAsyncCtx *tcpCtx, const char *host, unsigned port, cons
 	}
 
 	if (tcpCtx->host) KSI_free(tcpCtx->host);
+	tcpCtx->host = NULL;
 	res = KSI_strdup(host, &tcpCtx->host);
 	if (res != KSI_OK) goto cleanup;
 
 	tcpCtx->port = port;
 
 	if (tcpCtx->ksi_user) KSI_free(tcpCtx->ksi_user);
+	tcpCtx->ksi_user = NULL;
 	res = KSI_strdup(user, &tcpCtx->ksi_user);
 	if (res != KSI_OK) goto cleanup;
 
 	if (tcpCtx->ksi_pass) KSI_free(tcpCtx->ksi_pass);
+	tcpCtx->ksi_pass = NULL;
 	res = KSI_strdup(pass, &tcpCtx->ksi_pass);
 	if (res != KSI_OK) goto cleanup;
 
